@@ -14,8 +14,11 @@
     * collections are arbitrary `SColl` values satisfying the decidable `collWF off` (ascending non-empty
       non-overlapping blocks incl. 0-bp gaps, CDS blocks not before the first exon, one non-NONE frame per CDS
       block, every block at or after the chunk offset `off`; `off = 0` in chromosome mode);
-    * T4 needs UUID-shaped GUIDs; T1-column / T5-line need non-empty qualifier keys and a sequence name without
-      tab / LF / CR (column 1 is not escaped by the writer).
+    * T4 / T5 need pairwise distinct UUID-shaped GUIDs; T1-column / T5 need non-empty qualifier keys and a sequence
+      name without tab / LF / CR (column 1 is not escaped by the writer); T5 complete additionally: distinct keys in
+      feature(-collection) qualifier dicts, and in chunk-relative mode no programmed frameshift (`FramesKept`);
+    * T0 ties every hard-coded string constant of the model to the regenerated `Gen.gff3_*` tables; T6 covers the
+      header / `##sequence-region` / `##FASTA` glue of `collection_to_gff3`.
 -/
 import BioCantor.Proofs.GffEscape
 import BioCantor.Proofs.GffRows
@@ -24,11 +27,13 @@ import BioCantor.Proofs.GffIds
 import BioCantor.Proofs.GffLine
 import BioCantor.Proofs.GffDecode
 import BioCantor.Proofs.GffFix
+import BioCantor.Proofs.GffFullFc
 import BioCantor.Proofs.GffText
 namespace BioCantor.Props.C11
 open BioCantor BioCantor.Model.Gff BioCantor.Proofs.GffEscape BioCantor.Proofs.GffRows BioCantor.Proofs.GffAttrs
 open BioCantor.Proofs.GffIds BioCantor.Proofs.GffLine BioCantor.Proofs.GffDecode BioCantor.Proofs.GffFull
 open BioCantor.Proofs.GffFix BioCantor.Proofs.GffText BioCantor.Proofs.GffAttrEq BioCantor.Proofs.GffQuals
+open BioCantor.Proofs.GffFullFc BioCantor.Proofs.GffQualsFc
 open BioCantor.Spec.Gff (Str Quals SCds STx SGene SFeat SFc SChild SPar SColl GColl percentDecode percentsOk wellEscaped
   structural structuralValue splitOnChar parseAttrs parseLine uuidShaped)
 
@@ -174,12 +179,7 @@ theorem T4_ids_distinct (cx : Ctx) (c : SColl) (hnd : (Spec.Gff.allGuids c).Nodu
     (= the stored frame in chromosome mode).  For every well-formed collection with pairwise distinct UUID-shaped
     GUIDs, every gene, every transcript, both coordinate modes.
 
-    Full statement (kept): `gffDecode off ((toGffLines c …).map parseLine) = expected c`, i.e. additionally
-    (i) the transcripts of each gene and the genes themselves grouped the same way (same argument one level up),
-    (ii) the decoded attribute multimaps of every row equal the declarative union `expectAttrs (txQuals g t)` of
-    Spec/Gff.lean (needs: the model's imperative `mergeQuals`/`addToSet` = that union), (iii) composition with the
-    per-line theorem below.  (i)–(iii) rest on the correspondence run, where `Spec.Gff.checkLines` evaluates exactly
-    this equation on the real writer's output. -/
+    (A building block of `T5_decode_complete` below, which states the whole equation.) -/
 theorem T5_structure_rows (cx : Ctx) (c : SColl) (hwf : collWF cx.off c = true)
     (hnd : (Spec.Gff.allGuids c).Nodup) (hu : ∀ g ∈ Spec.Gff.allGuids c, uuidShaped g = true)
     (g : SGene) (t : STx) (hg : SChild.gene g ∈ c.children) (ht : t ∈ g.txs) :
@@ -198,10 +198,7 @@ theorem T5_structure_rows (cx : Ctx) (c : SColl) (hwf : collWF cx.off c = true)
     source, type, the SAME start and end numbers, strand, phase — and the decoded (tag, values) pairs of its
     attribute column.
 
-    Full statement (kept; the structure-level step rests on the correspondence run, where `Spec.Gff.checkLines`
-    evaluates exactly this equation on the real writer's output for every generated collection):
-      `gffDecode off ((toGffLines c …).map parseLine) = expected c`   ( = normalise (structure c) ); see
-    T5_structure_partial for what is missing. -/
+    (A building block of `T5_decode_complete` below.) -/
 theorem T5_line_roundtrip (r : Row) (line : Str) (h : rowStr r = .ok line)
     (hseq : noSep r.seqid) (hne : r.seqid ≠ []) (h1 : 1 ≤ r.start) (h2 : r.start ≤ r.stop)
     (hkeys : ∀ kv ∈ r.attrs.quals, kv.1 ≠ []) :
@@ -290,21 +287,29 @@ theorem T5_merge_is_union (g : SGene) (t : STx) :
 /-! ## T5 — the complete equation -/
 
 /-- T5 (complete): if `toGffLines c` succeeds, every line parses by the Spec's reader, and decoding the parsed
-    lines with the reference decoder gives
-      * the expected GENES (`normalise (structure c)`: file order, transcripts by start, exon / CDS blocks, frames,
-        strands, IDs, Names, and the canonical attribute multimap of EVERY row) for every well-formed collection
-        with pairwise distinct UUID-shaped GUIDs — feature collections may be present;
-      * exactly `expected c` when the collection holds genes only.
-    Hypotheses: `collWF` at the export's offset; non-empty qualifier keys; a sequence name without tab / LF / CR;
-    `FramesKept` (automatic in chromosome mode, `framesKept_chrom`; in chunk-relative mode it says that no CDS has
-    a programmed frameshift, which that mode documents as lost). -/
+    lines with the reference decoder gives EXACTLY `expected c` = `normalise (structure c)`: genes and feature
+    collections in file order, transcripts / features by start, exon / CDS / sub-region blocks, frames, strands,
+    IDs, Names, and the canonical attribute multimap of EVERY row — for every well-formed collection with pairwise
+    distinct UUID-shaped GUIDs, both coordinate modes.
+    Hypotheses: `collWF` at the export's offset; non-empty qualifier keys; feature(-collection) qualifier dictionaries
+    with distinct keys (they are Python dicts); a sequence name without tab / LF / CR; `FramesKept` (automatic in
+    chromosome mode, `framesKept_chrom`; in chunk-relative mode it says that no CDS has a programmed frameshift,
+    which that mode documents as lost). -/
 theorem T5_decode_complete (c : SColl) (chromRel raise : Bool) (lines : List Str) (cx : Ctx)
     (h : toGffLines c chromRel raise = .ok lines) (hne : c.children ≠ []) (hcx : mkCtx c chromRel raise = .ok cx)
-    (H : Hyp cx c) (hF : FramesKept cx c) (hk : SrcKeysOk c) (hseq : noSep cx.seqid) :
-    ∃ prows, lines.mapM parseLine = some prows ∧
-      (Spec.Gff.gffDecode cx.off prows).genes = (Spec.Gff.expected c).genes ∧
-      (genesOnly c = true → Spec.Gff.gffDecode cx.off prows = Spec.Gff.expected c) :=
-  export_decodes h hne hcx H hF hk hseq
+    (H : Hyp cx c) (hF : FramesKept cx c) (hk : SrcKeysOk c) (hD : SrcKeysDistinct c) (hseq : noSep cx.seqid) :
+    ∃ prows, lines.mapM parseLine = some prows ∧ Spec.Gff.gffDecode cx.off prows = Spec.Gff.expected c :=
+  export_decodes_all h hne hcx H hF hk hD hseq
+
+/-- T5 (chromosome mode): there `FramesKept` needs no hypothesis -/
+theorem T5_framesKept_chromosome (cx : Ctx) (c : SColl) (h : cx.chunkRel = false) : FramesKept cx c :=
+  framesKept_chrom cx c h
+
+/-- T5b' (merge = union, feature collections): the same for `d[feature_type] = types` (Python dict assignment) -/
+theorem T5_merge_is_union_fc (c : SFc) (f : SFeat) (hc : KeysDistinct c.quals) (hf : KeysDistinct f.quals) :
+    Spec.Gff.expectAttrs (fcExportQuals c) = Spec.Gff.expectAttrs (Spec.Gff.fcQuals c) ∧
+    Spec.Gff.expectAttrs (featExportQuals f (fcExportQuals c)) = Spec.Gff.expectAttrs (Spec.Gff.featQuals c f) :=
+  ⟨expectAttrs_congr (fc_quals_rel c hc), expectAttrs_congr (feat_quals_rel c f hc hf)⟩
 
 /-- T5c (second round): qualifier inheritance — every transcript additionally carrying its gene's qualifiers, which
     is what a reader of the file hands back — does not change what the file must decode to; so by T5 the export of
@@ -347,27 +352,63 @@ theorem T6_ordered (cs : List GColl) :
 
 /-! ### non-vacuity for T5 complete / T6: the example gene collection in chromosome mode -/
 
-def exCollChrom : SColl := { exColl with par := .chrom }
+def exFeat : SFeat :=
+  { guid := "00000000-0000-0000-0000-000000000006".toList, strand := .unstranded, blocks := [(50, 52), (52, 60)],
+    name := some ['F'], fid := none, ftypes := [['p', 'r', 'o', 'm']], quals := [(['n', 'o', 't', 'e'], [['x', ',', 'y']])] }
+def exFc : SFc :=
+  { guid := "00000000-0000-0000-0000-000000000005".toList, name := none, fcid := some ['f', 'c'], fctype := none,
+    locus := none, quals := [(['f', 'e', 'a', 't', 'u', 'r', 'e', '_', 't', 'y', 'p', 'e'], [['o', 'l', 'd']])],
+    feats := [exFeat] }
+/-- a gene (two isoforms, 0-bp-gap CDS, minus strand) and a feature collection, whole-chromosome parent -/
+def exCollChrom : SColl := { seqName := some ['c', 'h', 'r'], par := .chrom, children := [.gene exGene, .fc exFc] }
 def exCx : Ctx := ⟨['c', 'h', 'r'], 0, false, false⟩
 
 example : mkCtx exCollChrom true false = .ok exCx := rfl
 example : Hyp exCx exCollChrom := ⟨by decide, by decide, by decide⟩
 example : FramesKept exCx exCollChrom := framesKept_chrom _ _ rfl
-example : genesOnly exCollChrom = true ∧ exCollChrom.children ≠ [] ∧ noSep exCx.seqid := by decide
+example : exCollChrom.children ≠ [] ∧ noSep exCx.seqid := by decide
+example : KeysDistinct exFc.quals ∧ KeysDistinct exFeat.quals := by
+  constructor <;> · unfold KeysDistinct; decide
+example : SrcKeysDistinct exCollChrom := by
+  intro f hf
+  have hf' : SChild.fc f = .gene exGene ∨ SChild.fc f = .fc exFc := by
+    have : SChild.fc f ∈ [SChild.gene exGene, .fc exFc] := hf
+    simpa using this
+  rcases hf' with h | h
+  · cases h
+  · have : f = exFc := SChild.fc.inj h
+    subst this
+    refine ⟨by unfold KeysDistinct; decide, ?_⟩
+    intro t ht
+    have : t = exFeat := List.mem_singleton.mp ht
+    subst this
+    unfold KeysDistinct; decide
 example : SrcKeysOk exCollChrom := by
   intro x hx
-  have hx' : x = SChild.gene exGene := List.mem_singleton.mp hx
-  subst hx'
-  refine ⟨fun kv h => absurd h (List.not_mem_nil), ?_⟩
-  intro t ht
-  have ht' : t = exTx1 ∨ t = exTx2 := by
-    have : t ∈ [exTx1, exTx2] := ht
+  have hx' : x = SChild.gene exGene ∨ x = SChild.fc exFc := by
+    have : x ∈ [SChild.gene exGene, .fc exFc] := hx
     simpa using this
-  rcases ht' with rfl | rfl
-  · intro kv h
-    have : kv = ((['k', ' '] : Str), ([['v', ';']] : List Str)) := List.mem_singleton.mp h
-    rw [this]; decide
-  · exact fun kv h => absurd h (List.not_mem_nil)
+  rcases hx' with rfl | rfl
+  · refine ⟨fun kv h => absurd h (List.not_mem_nil), ?_⟩
+    intro t ht
+    have ht' : t = exTx1 ∨ t = exTx2 := by
+      have : t ∈ [exTx1, exTx2] := ht
+      simpa using this
+    rcases ht' with rfl | rfl
+    · intro kv h
+      have : kv = ((['k', ' '] : Str), ([['v', ';']] : List Str)) := List.mem_singleton.mp h
+      rw [this]; decide
+    · exact fun kv h => absurd h (List.not_mem_nil)
+  · refine ⟨?_, ?_⟩
+    · intro kv h
+      have := List.mem_singleton.mp h
+      rw [this]; decide
+    · intro t ht
+      have : t = exFeat := List.mem_singleton.mp ht
+      subst this
+      intro kv h
+      have := List.mem_singleton.mp h
+      rw [this]; decide
 example : ∃ lines, toGffLines exCollChrom true false = .ok lines := toGffLines_noraise _ _ exCx rfl
 
 end BioCantor.Props.C11
